@@ -63,7 +63,7 @@ fn gen_position(seed: u64, k: u64) -> Plan {
     plan.params.insert("depth".into(), depth as i64);
     plan.params.insert("index".into(), pos as i64);
     let port = 4000 + rng.below(1000) as u16;
-    let slot = SlotSpec { index: pos as u32, depth, midp_secs: pick_midp_secs(&mut rng), midp_sub_us: rng.below(1_000_000) as u32, forgeries: vec![], sibling_seed: rng.next_u64(), delay_us: 0 };
+    let slot = SlotSpec { index: pos as u32, depth, midp_secs: pick_midp_secs(&mut rng), midp_sub_us: rng.below(1_000_000) as u32, forgeries: vec![], sibling_seed: rng.next_u64(), delay_us: 0, window: (rng.below(5)) as u8 };
     let spec = RefServerSpec { port, long_seed: rng.next_u64(), online_seed: rng.next_u64(), slots: vec![slot] };
     let pk = {
         let mut s = [0u8; 32];
@@ -124,7 +124,7 @@ fn gen(seed: u64, idx: u64, _tier: Tier) -> Plan {
         for _ in 0..n {
             let depth = rng.below(7) as u32;
             let sub_any = rng.below(1_000_000) as u32;
-            slots.push(SlotSpec { index: rng.below(64) as u32, depth, midp_secs: pick_midp_secs(&mut rng), midp_sub_us: *rng.pick(&[0u32, 1, 999, 1000, 999_999, sub_any]), forgeries: vec![], sibling_seed: rng.next_u64(), delay_us: rng.below(2000) });
+            slots.push(SlotSpec { index: rng.below(64) as u32, depth, midp_secs: pick_midp_secs(&mut rng), midp_sub_us: *rng.pick(&[0u32, 1, 999, 1000, 999_999, sub_any]), forgeries: vec![], sibling_seed: rng.next_u64(), delay_us: rng.below(2000), window: *rng.pick(&[0u8, 0, 1, 2, 3, 4]) });
         }
         let spec = RefServerSpec { port, long_seed: rng.next_u64(), online_seed: rng.next_u64(), slots };
         let pk = {
